@@ -139,7 +139,7 @@ type env41 struct {
 	nextK        int
 	steps        []string
 	sawRefused   bool
-	ntAuth       bool // an auth attempt built from obtained material after a refusal
+	ntAuth       bool     // an auth attempt built from obtained material after a refusal
 	obtained     []string // byte strings taken from replies on the unauthenticated side
 	nAuthSuccess int
 }
